@@ -23,7 +23,8 @@ RULE = ("not_adjacent: all labelled graphs <= 5 vertices and all grids h*w <= 12
 ASSUMPTIONS = ["z3 decides the posted aux-variable program correctly (SAT answers re-validated by M-SOLVE)",
                "definition of 'not segmenting': inactive vertices induce a connected subgraph (no inactive vertex counts as connected)"]
 REQUIRED = ["nadj.eval_patterns", "nadj.grid", "nadj.graph", "nseg.pointwise", "nseg.oracle.valid", "nseg.oracle.invalid",
-            "nseg.single_row_or_column", "nseg.accepted_set_solves", "nsegg.pointwise", "nadj.pointwise", "nseg.big_boards", "nseg.big_valid_chain_depth3plus"]
+            "nseg.single_row_or_column", "nseg.accepted_set_solves", "nsegg.pointwise", "nadj.pointwise", "nseg.big_boards", "nseg.big_valid_chain_depth3plus", "nadj.graphs_with_self_loops",
+            "nadj.line_graph_objects"]
 
 
 def plan(tier):
@@ -227,6 +228,28 @@ def run(ctx):
                 D.pointwise(ctx, "nsegg", n, lambda s, act: graph.active_vertices_not_adjacent_and_not_segmenting(s, BoolArray1D(act), g),
                             nseg_def(n, edges), D.all_patterns(n), forms=("var", "neg"),
                             desc={"fn": "not_segmenting", "n": n, "edges": [list(e) for e in edges]}, rng=rng)
+    # graphs with self-loops (a looped vertex can never be active: its loop would have both endpoints active) and Graph objects
+    # produced by Graph.line_graph()
+    for t in range(6 if not thorough else 100):
+        if t % 2 == 0:
+            n = rng.randint(1, 5)
+            base = [e for e in ((u, v) for u in range(n) for v in range(u + 1, n)) if rng.random() < 0.5]
+            edges = D.with_loops(rng, n, base)
+            g = D.mk_graph(n, edges)
+            ctx.count("nadj.graphs_with_self_loops")
+            desc = {"fn": "not_adjacent", "n": n, "edges": [list(e) for e in edges], "self_loops": True}
+        else:
+            r = D.line_graph_object(rng)
+            if r is None:
+                ctx.count("nadj.line_graph_object_disagrees")
+                continue
+            g, n, edges = r
+            ctx.count("nadj.line_graph_objects")
+            desc = {"fn": "not_adjacent", "n": n, "edges": [list(e) for e in edges], "from_line_graph": True}
+        with ctx.guard(300):
+            not_adjacent_eval(ctx, n, edges, lambda s, vs, g=g: graph.active_vertices_not_adjacent(s, vs, g), desc)
+            D.pointwise(ctx, "nsegg", n, lambda s, act, g=g: graph.active_vertices_not_adjacent_and_not_segmenting(s, BoolArray1D(act), g),
+                        nseg_def(n, edges), D.all_patterns(n), forms=("var",), desc=dict(desc, fn="not_segmenting"), rng=rng)
     ctx.sample({"fn": "not_segmenting", "grid": [3, 3], "pattern": [1, 0, 0, 0, 1, 0, 0, 0, 1], "definition": False})
     msolve.uninstall()
 
